@@ -95,6 +95,9 @@ var registry = []Harness{
 	{Prop: "C20", Pkg: "neofs", Func: "VerifC20NeoFSConfig", Link: []string{"neofs", "processing"},
 		Quick: [][]int{{1, 2, 1}, {2, 2, 2}, {0, 1, 0}, {6, 2, 6}}, Thorough: [][]int{{1, 2, 1}, {2, 2, 2}, {0, 1, 0}, {6, 2, 6}, {1, 1, 2}, {0, 0, 0}, {2, 6, 2}, {6, 6, 6}, {11, 11, 11}, {21, 2, 21}},
 		Bound: "NeoFS contract with Notary; two setConfig with fully symbolic keys of lengths (param0,param1) and 2-byte values; config(kq); listConfig (plus the two keys configured at deployment)"},
+	{Prop: "C20", Pkg: "neofs", Func: "VerifC20NeoFSVotedConfig", Link: []string{"neofs", "processing"},
+		Quick: [][]int{{4}}, Thorough: [][]int{{1}, {4}, {7}},
+		Bound: "NeoFS contract without Notary, param0 Alphabet nodes (4; 1, 4, 7 in thorough): 2n/3+1 nodes vote a symbolic 2-byte value in under one id, then one symbolic node re-uses the id with a different value after 0..25 blocks; config and listConfig after each stage"},
 	{Prop: "C20", Pkg: "audit", Func: "VerifC20Audit", Link: []string{"audit"},
 		Quick: [][]int{{1, 1, 1}, {2, 1, 1}, {0, 1, 1}, {1, 2, 2}, {3, 2, 2}}, Thorough: allTriples(4),
 		Bound: "two audit results put by two Inner Ring members: well-formed V2 header (version length 0), epoch = two symbolic low bytes (classes given by params: 0 / 1..127 / 128..32767 / 32768..65535), symbolic 32-byte container ids; list, get, listByEpoch/CID/Node with symbolic query epoch"},
